@@ -103,7 +103,7 @@ PLANS = {
     "C08": dict(quick=[("cache", "small", 3, 3)], thorough=[("cache", "small", 4, 3), ("path", "tiny", 2, 4)]),
     "C09": dict(quick=[("path", "small", 1, 4), ("cache", "small", 2, 3), ("path", "tiny", 2, 2)],
                 thorough=[("path", "small", 1, 6), ("path", "small", 2, 3), ("cache", "small", 4, 3)]),
-    "C06": dict(quick=[("valid", "small", 4, 3)], thorough=[("valid", "small", 6, 3), ("valid", "valid4", 5, 3)]),
+    "C06": dict(quick=[("valid", "small", 3, 3)], thorough=[("valid", "small", 4, 3), ("valid", "valid4", 3, 3)]),
 }
 
 
